@@ -1,4 +1,5 @@
 import SgVerif.C25.FloydPred
+import SgVerif.C25.DijkstraInv
 /-
 C25 — Shortest-path zones compute minimal routes.  Property theorems (nothing else in this file).
 Every theorem is for every number of nodes, every set of declared routes (any link lists, symmetric or one-way).
@@ -220,17 +221,6 @@ theorem full_returns_declared (t t' : Table) (src dst : Nat) (links : List Lk) (
         simp [tableGet, List.find?, e1, e2]
 
 /- ---------------------------------------------------------------- Dijkstra -/
-
-def EdgeChain (g : DGraph) : Nat → List DEdge → Nat → Prop
-  | a, [], b => a = b
-  | a, e :: es, b => e ∈ g.edges ∧ e.src = a ∧ EdgeChain g e.dst es b
-
-theorem edgeChain_snoc (g : DGraph) (e : DEdge) (he : e ∈ g.edges) : ∀ (es : List DEdge) (a : Nat),
-    EdgeChain g a es e.src → EdgeChain g a (es ++ [e]) e.dst := by
-  intro es
-  induction es with
-  | nil => intro a h; simp only [EdgeChain] at h; exact ⟨he, h.symm, rfl⟩
-  | cons x xs ih => intro a h; exact ⟨h.1, h.2.1, ih x.dst h.2.2⟩
 
 /-- the links of one hop as variant `V` of the code emits them -/
 def hopLinks (V : DVar) (l : List Lk) : List Lk := if V.hop then l else l.reverse
